@@ -321,7 +321,12 @@ func vfStallWatch(enabled bool, onStall func(msg string)) (stop func()) {
 	return func() { close(done) }
 }
 
-func vfStalledOnProxyLock() (key, evidence string) {
+func vfStalledOnProxyLock() (key, evidence string) { return vfQueuedOnProxyLock(true, "") }
+
+// vfQueuedOnProxyLock lists the bubble goroutines queued on a sync.Mutex / sync.RWMutex from within the proxy's own
+// code. standstill: only if nobody in a bubble is running or runnable; mustContain: only goroutines whose stack
+// mentions this function.
+func vfQueuedOnProxyLock(standstill bool, mustContain string) (key, evidence string) {
 	buf := make([]byte, 8<<20)
 	buf = buf[:runtime.Stack(buf, true)]
 	var queued []string
@@ -330,8 +335,11 @@ func vfStalledOnProxyLock() (key, evidence string) {
 		if !strings.Contains(head, "synctest bubble") {
 			continue
 		}
-		if strings.Contains(head, "[running") || strings.Contains(head, "[runnable") {
+		if standstill && (strings.Contains(head, "[running") || strings.Contains(head, "[runnable")) {
 			return "", ""
+		}
+		if mustContain != "" && !strings.Contains(g, mustContain) {
+			continue
 		}
 		if !(strings.Contains(head, "sync.Mutex.Lock") || strings.Contains(head, "sync.RWMutex.RLock") || strings.Contains(head, "sync.RWMutex.Lock")) {
 			continue
